@@ -108,3 +108,80 @@ macro_rules! sme { ($name:ident, $d:literal, $ds:literal) => {
 sme!(ellipse_small_d1_ds1, 1, 1);
 sme!(ellipse_small_d1_ds2, 1, 2);
 sme!(ellipse_small_d0_ds2, 0, 2);
+
+// ---- C12 recursion contract (geometry predicates as arbitrary answers) --------------------------------
+// polygon_coverage_recur with n_vertices_in_poly / has_intersection replaced by an arbitrary table over
+// the 21 cells of a 2-level tree and the builder by its contract: for EVERY assignment of answers and
+// every sorted list of up to 2 vertex cells, a deepest cell is
+//   partial  if a listed vertex cell lies in it (whatever the predicates say: vertex cells are kept),
+//   full     iff some ancestor-or-self on the path had all 4 vertices in the polygon (and no listed
+//            vertex cell was met before on the path),
+//   partial  if every level down to it had (some vertex in || an intersection), absent otherwise.
+static mut P_ROOT: u64 = 0;
+static mut P_D0: u8 = 0;
+static mut P_NV: [u8; 21] = [0; 21];
+static mut P_INTER: [bool; 21] = [false; 21];
+static mut P_CUR: usize = 0;
+fn p_index(depth: u8, hash: u64) -> usize {
+  unsafe { let lvl = depth - P_D0; let rel = hash - (P_ROOT << (2 * lvl as u32)); match lvl { 0 => 0, 1 => 1 + (rel & 3) as usize, _ => 5 + (rel & 15) as usize } }
+}
+fn ghost_n_vertices(depth: u8, hash: u64, _poly: &Polygon) -> (u8, [Coo3D; 4]) {
+  let k = p_index(depth, hash);
+  unsafe { P_CUR = k; }
+  let z = Coo3D::from_sph_coo(0.0, 0.0);
+  (unsafe { P_NV[k] }, [z, Coo3D::from_sph_coo(0.0, 0.0), Coo3D::from_sph_coo(0.0, 0.0), Coo3D::from_sph_coo(0.0, 0.0)])
+}
+fn ghost_has_intersection(_poly: &Polygon, _vertices: [Coo3D; 4]) -> bool { unsafe { P_INTER[P_CUR] } }
+fn check_poly_recur(delta: u8, nlist: usize) {
+  let d0: u8 = kani::any(); kani::assume(d0 <= 4);
+  let root: u64 = kani::any(); kani::assume(root < sp::n_hash(d0));
+  let l = Layer::new(d0 + delta);
+  unsafe {
+    P_ROOT = root; P_D0 = d0;
+    let mut k = 0; while k < 21 { P_NV[k] = kani::any(); kani::assume(P_NV[k] <= 4); P_INTER[k] = kani::any(); k += 1; }
+  }
+  // sorted list of vertex cells (deepest level), anywhere on the sphere
+  let v: [u64; 2] = kani::any();
+  kani::assume(v[0] < sp::n_hash(d0 + delta) && v[1] < sp::n_hash(d0 + delta) && v[0] < v[1]);
+  let rel: u64 = kani::any(); kani::assume(rel < (1u64 << (2 * delta as u32)));
+  let c = (root << (2 * delta as u32)) | rel;
+  vb::g_reset(c, d0 + delta);
+  let mut b = BMOCBuilderUnsafe::new(d0 + delta, 0);
+  let poly = Polygon::new(vec![LonLat { lon: 0.1, lat: 0.1 }, LonLat { lon: 0.2, lat: 0.1 }, LonLat { lon: 0.15, lat: 0.2 }].into_boxed_slice());
+  l.polygon_coverage_recur(&mut b, d0, root, &poly, &v[..nlist]);
+  let (_, state, count, ok) = vb::g_snapshot();
+  // expected state of c, level by level
+  let mut expect = 0u8; let mut lvl = 0u8; let mut done = false;
+  while lvl <= 2 {
+    if !done && lvl <= delta {
+      let cell = c >> (2 * (delta - lvl) as u32);
+      let sh = 2 * (delta - lvl) as u32;
+      let listed = (nlist >= 1 && (v[0] >> sh) == cell) || (nlist >= 2 && (v[1] >> sh) == cell);
+      let k = p_index(d0 + lvl, cell);
+      let (nv, inter) = unsafe { (P_NV[k], P_INTER[k]) };
+      if listed { if lvl == delta { expect = 1; done = true; } }
+      else if nv == 4 { expect = 2; done = true; }
+      else if nv > 0 || inter { if lvl == delta { expect = 1; done = true; } }
+      else { expect = 0; done = true; }
+    }
+    lvl += 1;
+  }
+  assert!(ok && count <= 1, "C12/C09 polygon recursion pushes valid cells in strictly increasing, disjoint order");
+  assert!(state == expect, "C12 polygon descent: vertex cells kept (partial), full only when the 4 vertices are in the polygon, partial/descend when a vertex is in or an edge intersects, dropped otherwise");
+  kani::cover!(expect == 1 && nlist > 0, "vertex cell kept");
+  kani::cover!(expect == 2, "full cell");
+}
+macro_rules! polyrec { ($name:ident, $dl:literal, $nl:literal) => {
+  #[kani::proof]
+  #[kani::stub(n_vertices_in_poly, ghost_n_vertices)]
+  #[kani::stub(has_intersection, ghost_has_intersection)]
+  #[kani::stub(BMOCBuilderUnsafe::new, vb::ghost_new)]
+  #[kani::stub(BMOCBuilderUnsafe::push, vb::ghost_push)]
+  #[kani::unwind(22)]
+  fn $name() { check_poly_recur($dl, $nl) }
+} }
+polyrec!(poly_recur_delta0_n1, 0, 1);
+polyrec!(poly_recur_delta1_n1, 1, 1);
+polyrec!(poly_recur_delta1_n2, 1, 2);
+polyrec!(poly_recur_delta2_n2, 2, 2);
+polyrec!(poly_recur_delta2_n0, 2, 0);
